@@ -48,11 +48,28 @@ if ! git apply --check $dest/patch.diff 2>/dev/null; then echo "PATCH DOES NOT A
 git apply $dest/patch.diff
 fired=""
 cd /verif
+rm -f $dest/violation_C*.txt $dest/machinery_C*.txt
+if [ "${SEED_PARALLEL:-0}" = "1" ]; then
+  # build once (both binaries), then run the 17 quick checks side by side
+  ./check --setup >/dev/null 2>$dest/.build.err || true
+  tmpd=$(mktemp -d)
+  for c in C01 C02 C03 C04 C05 C06 C07 C08 C09 C10 C11 C12 C13 C14 C15 C16 C17; do
+    ( ./check $c quick >$tmpd/$c.out 2>&1; echo $? >$tmpd/$c.rc ) &
+  done
+  wait
+  for c in C01 C02 C03 C04 C05 C06 C07 C08 C09 C10 C11 C12 C13 C14 C15 C16 C17; do
+    rc=$(cat $tmpd/$c.rc); o=$(cat $tmpd/$c.out)
+    if [ $rc -eq 1 ]; then fired="$fired $c"; echo "$o" | grep VIOLATION | head -2 | cut -c1-400 > $dest/violation_$c.txt; fi
+    if [ $rc -ge 2 ]; then fired="$fired $c(machinery:$rc)"; echo "$o" | tail -5 > $dest/machinery_$c.txt; fi
+  done
+  rm -rf $tmpd $dest/.build.err
+else
 for c in C01 C02 C03 C04 C05 C06 C07 C08 C09 C10 C11 C12 C13 C14 C15 C16 C17; do
   o=$(./check $c quick 2>&1); rc=$?
   if [ $rc -eq 1 ]; then fired="$fired $c"; echo "$o" | grep VIOLATION | head -2 | cut -c1-400 > $dest/violation_$c.txt; fi
   if [ $rc -ge 2 ]; then fired="$fired $c(machinery:$rc)"; echo "$o" | tail -5 > $dest/machinery_$c.txt; fi
 done
+fi
 git -C /repo checkout -- .
 git -C /verif checkout -q -- evidence  # evidence written while the seed was applied is not evidence about /repo
 echo "checks_fired:$fired"
